@@ -68,6 +68,8 @@ def signature(rec):
     if cls == "self-deadlock":
         m = re.search(r"locks mutex (\w+)", d)
         return "re-entered " + (m.group(1) if m else "?")
+    if cls == "deadlock" and "never terminates" in d:
+        return "child of a failed exec never terminates"
     if cls == "deadlock":
         return "deadlock"
     return cls
